@@ -44,11 +44,11 @@ V6_DELETES = ["V6_api.delete_func.*", "V6_api.fn:Module::delete_func", "V6_api.F
               "V6b_api2.delete_memory.*", "V6b_api2.fn:Module::delete_memory", "V6b_api2.Memories.delete.*", "V6b_api2.fn:Memories::delete",
               "V6b_api2.ModuleExports.delete.*", "V6b_api2.fn:ModuleExports::delete"]
 
-V8_BASE = ["V8_lower.fn:lemma_*", "V8_lower.fn:FunctionModifier as *", "V8_lower.fn:Instrumenter::*", "V8_lower.fn:Inject::inject", "V8_lower.fn:Opcode::*",
+V8_BASE = ["V8_lower.fn:lemma_*", "V8_lower.fn:FunctionModifier as *", "V8_lower.fn:Instrumenter::*", "V8_lower.fn:Inject::inject", "V8_lower.fn:Inject::inject_all", "V8_lower.inject_all.*", "V8_lower.fn:Opcode::*",
            "V8_lower.fn:InstrumentationFlag::*", "V8_lower.fn:Instruction::add_instr", "V8_lower.fn:FuncInstrFlag::add_instr", "V8_lower.fn:v_inject_all",
            # which functions the lowering visits at all (rule R23, unit V2)
            "V2_reindex.functions_visited_by_the_lowering.*", "V2_reindex.fn:Module::functions_visited_by_the_lowering"]
-LOWER_GLUE = ["Module::resolve_special_instrumentation: the per-function driver (block stack, which helper runs at which instruction, delete_block / retain_end bookkeeping, resolve_on_end maps) is not under contract, EXCEPT (i) the preparation of entry / exit code before the loop and (ii) WHICH functions the outer loop visits (rule R23, unit V2: every local function of the re-organised container; F30), (iii) ONE ITERATION of the inner loop (rule R19) for twelve cases, each a contract on the same extracted text restricted by its `requires`: inside a removed construct; the opener carrying a block-alternate; the matching `end` of a removed construct; an opener with only a block-entry probe; a block / loop with only a block-exit probe; a single-target branch with only a semantic-after probe; a br_table with only a semantic-after probe (flag created, due at the end of every target and of the default, request consumed); an `end` outside any removed construct with bodies pending in either or both tables (the two flush loops are replaced there by calls of the flush regions, verified on their own against the same text: both tables are flushed at this `end` and their entries taken off) - with function-level entry / exit code possibly pending: at the function's last instruction the wrapper block is closed and the exit code follows, spent there; an `else` outside any removed construct with bodies pending for 'the else or the end' of its `if` (flushed here, taken off, the other table untouched; `remove_for_top`, which stands for the closure expression that removes the entry, is ASSUMED to be HashMap::remove for the innermost open construct); an `else` that carries a block-alternate (pending bodies of its `if` are still flushed here, then the else-arm is replaced and removed up to the `end`, which stays); a block / loop / if with ANY combination of block-entry, block-exit and semantic-after requests (each placed resp. registered as if it were alone, all consumed); an ordinary (not block-structured) instruction without special request, with function-level code possibly pending: entry code once in front of instruction 0, a copy of the exit code in front of every instruction that leaves the function (the four opener / branch cases are stated for functions without function-level entry / exit code). All other combinations (several special requests on a branch, special requests on `else` / `end` other than a block-alternate on `else`, function-level code together with a special request) are NOT decided; the plan tables are seen through the std HashMap view both where entries are added (save_* helpers, proved) and where they are removed and flushed; the lemmas `registered_is_flushed.*` connect the two (the code emitted for an entry is a function of its plan view; a registered body is emitted after what was already due under the same construct and mode, every other entry keeps its code), but the composition over a whole function body (registration at the opener, flush at the matching end, many iterations apart) is not stated as one theorem",
+LOWER_GLUE = ["Module::resolve_special_instrumentation: the per-function driver (block stack, which helper runs at which instruction, delete_block / retain_end bookkeeping, resolve_on_end maps) is not under contract, EXCEPT (i) the preparation of entry / exit code before the loop and (ii) WHICH functions the outer loop visits (rule R23, unit V2: every local function of the re-organised container; F30), (iii) ONE ITERATION of the inner loop (rule R19) for twelve cases, each a contract on the same extracted text restricted by its `requires`: inside a removed construct; the opener carrying a block-alternate; the matching `end` of a removed construct; an opener with only a block-entry probe; a block / loop with only a block-exit probe; a single-target branch with only a semantic-after probe; a br_table with only a semantic-after probe (flag created, due at the end of every target and of the default, request consumed); an `end` outside any removed construct with bodies pending in either or both tables (the two flush loops are replaced there by calls of the flush regions, verified on their own against the same text: both tables are flushed at this `end` and their entries taken off) - with function-level entry / exit code possibly pending: at the function's last instruction the wrapper block is closed and the exit code follows, spent there; an `else` outside any removed construct with bodies pending for 'the else or the end' of its `if` (flushed here, taken off, the other table untouched; the closure expression `block_stack.last().and_then(|b| table.remove(b))` that takes the entry off is verified as the match it stands for, rule R29); an `else` that carries a block-alternate (pending bodies of its `if` are still flushed here, then the else-arm is replaced and removed up to the `end`, which stays); a block / loop / if with ANY combination of block-entry, block-exit and semantic-after requests (each placed resp. registered as if it were alone, all consumed); an ordinary (not block-structured) instruction without special request, with function-level code possibly pending: entry code once in front of instruction 0, a copy of the exit code in front of every instruction that leaves the function (the four opener / branch cases are stated for functions without function-level entry / exit code). All other combinations (several special requests on a branch, special requests on `else` / `end` other than a block-alternate on `else`, function-level code together with a special request) are NOT decided; the plan tables are seen through the std HashMap view both where entries are added (save_* helpers, proved) and where they are removed and flushed; the lemmas `registered_is_flushed.*` connect the two (the code emitted for an entry is a function of its plan view; a registered body is emitted after what was already due under the same construct and mode, every other entry keeps its code), but the composition over a whole function body (registration at the opener, flush at the matching end, many iterations apart) is not stated as one theorem",
               "the final emission of before / alternate / after lists in encode_internal",
               "'fires once when ...' is an execution-trace property: neither verifier has a WebAssembly semantics; what is proved is WHERE each helper places WHICH code (placement contracts written from the property text)",
               "TRUSTED: Inject::inject_all injects the slice in order (closure capturing &mut self)"]
@@ -342,8 +342,8 @@ PROPS = {
                                    "V8_lower.fn:save_not_flagged_body_to_resolve", "V8_lower.fn:save_not_flagged_body_to_resolve_inner", "V8_lower.fn:save_flagged_body_to_resolve",
                                    "V8_lower.registered_is_flushed.*", "V8_lower.fn:lemma_resolved_code_is_a_function_of_the_plan_view", "V8_lower.fn:lemma_unflagged_body_registered_is_flushed",
                                    "V8_lower.fn:lemma_flagged_body_registered_is_flushed", "V8_lower.fn:lemma_other_entries_keep_their_code"],
-        "glue": LOWER_GLUE + ["ASSUMED: the contract of the br_table target loop (a for_each closure, named brtable_save_targets by rule R11): it registers the body, flagged with the given local, under (block of each decoded target, mode) and touches nothing else; Vec<Operator>::to_owned yields an equal list; HashMap::from([(k, v)]) is the one-entry table; #[derive(Hash, Eq)] of InstrumentationMode obeys the HashMap key model (the save_{not_,}flagged_body_to_resolve helpers themselves are proved with their real bodies, rule R27)",
-                              "TRUSTED model of wasmparser::BrTable: targets() yields br_targets(t), default() is br_default(t)"],
+        "glue": LOWER_GLUE + ["ASSUMED: Vec<Operator>::to_owned yields an equal list; HashMap::from([(k, v)]) is the one-entry table; #[derive(Hash, Eq)] of InstrumentationMode obeys the HashMap key model (the save_{not_,}flagged_body_to_resolve helpers themselves are proved with their real bodies, rule R27; the br_table target loop `targets.targets().for_each(..)` is verified in place as the for loop it stands for, rules R28 + R18)",
+                              "TRUSTED model of wasmparser::BrTable: targets() denotes a finite sequence of items (a depth or a read error each) and iterating it yields exactly that sequence; the targets that count are the depths among them, in order (the code skips errors); default() is br_default(t)"],
         "design_ref": "DESIGN.md §5 C17-C20",
         "level_text": "Placement only. Registration: on block / loop / if / else the probe is due after the `end` of that very construct; on EVERY br / br_if / br_on_* (whatever its target, incl. the function body) a fresh i32 flag is set to 1 before the branch and reset to 0 after it, with the probe body right after the reset for conditional branches (fall-through), and the probe is due, guarded by that flag, at the `end` of block (top - depth); br_table: the same for every target and the default; nothing for other instructions. Emission: at the target's end each saved body is guarded by its flag in an if / else-if chain. The driver that pairs the two is glue.",
     },
